@@ -952,7 +952,8 @@ func (en *env) cellCovers(base string, t types.Type, addr string) string {
 		}
 		return or(alts...)
 	case *types.Array:
-		return and(fmt.Sprintf("((_ is idx) %s)", addr), eq(app("idx_b", addr), base), app("bvult", app("idx_i", addr), bvLit(64, uint64(u.Len()))))
+		// an element, or the array as a whole (a store of an array value is checked at the array's address)
+		return or(eq(addr, base), and(fmt.Sprintf("((_ is idx) %s)", addr), eq(app("idx_b", addr), base), app("bvult", app("idx_i", addr), bvLit(64, uint64(u.Len())))))
 	}
 	return eq(addr, base)
 }
